@@ -67,3 +67,4 @@ pub fn mmapper_is_mapped(addr: crate::util::Address) -> bool {
 }
 pub mod c35;
 pub mod c37;
+pub mod c30;
